@@ -456,14 +456,20 @@ def guarded_call(fn, seconds=1.0):
 
 
 def _guarded(fn, arg, seconds=1.0):
+    """run fn(arg) under a limit on the CPU time this process spends in it (machine load does not count); a first expiry is
+    confirmed with a three times larger limit before it is reported"""
     import signal
-    old = signal.signal(signal.SIGALRM, _on_alarm)
-    signal.setitimer(signal.ITIMER_REAL, seconds)
-    try:
-        return fn(arg)
-    finally:
-        signal.setitimer(signal.ITIMER_REAL, 0)
-        signal.signal(signal.SIGALRM, old)
+    for limit in (seconds, 3 * seconds):
+        old = signal.signal(signal.SIGVTALRM, _on_alarm)
+        signal.setitimer(signal.ITIMER_VIRTUAL, limit)
+        try:
+            return fn(arg)
+        except CodecTimeout:
+            if limit != seconds:
+                raise
+        finally:
+            signal.setitimer(signal.ITIMER_VIRTUAL, 0)
+            signal.signal(signal.SIGVTALRM, old)
 
 
 def impl_encode(tobj, pobj):
